@@ -693,7 +693,7 @@ def body_class(inp, H, W, K, S, preload):
         T = hx.attempt(lambda: t.transform_mapping_matrix(mapping_matrix=M))
         A["tmm.re"], A["tmm.im"] = _split(T)
         E["tmm.re"], E["tmm.im"] = ref_matrix(C, Sn, M)
-    return A, E
+    return per_entry(A, E, ["tmm.re", "tmm.im"])
 
 
 TMM_KEYS = ["tmm.re", "tmm.im"]
@@ -825,7 +825,7 @@ def body_inversion(inp, H, W, K, S1, S2, preload, mode, reg):
                 F[j, j] = F[j, j] + add
         A["F"] = hx.attempt(lambda: inv.curvature_matrix)
         E["F"] = F
-    return per_entry(A, E, ["D", "F"])
+    return per_entry(A, E, ["T.re", "T.im", "D", "F"])
 
 
 INV_KEYS = ["T.re", "T.im"]
